@@ -686,6 +686,24 @@ func ruleOPT14(c *Ctx) {
 	// reflect.Interface == 20, reflect.Pointer == 22
 	ok := kinds[20] && kinds[22] && recurses && elem
 	c.Check(ok, "GetValueElem / unwraps pointers and interfaces repeatedly", p.Pos(gve.Pos()), "recursion/loop over Ptr and Interface with Elem()", "GetValueElem no longer unwraps nested pointers/interfaces")
+	// ... and hands back nothing but what it was given, unwrapped: a value made up inside (reflect.Zero of the pointee type
+	// for a nil pointer, say) turns an operand that cannot be evaluated into an ordinary zero, and the failure C14 wants
+	// reported is gone (round-5 seed C14/b: `F.Amount > F.Limit` with a nil *int64 makes the rule fire)
+	made := ""
+	for _, ci := range callsIn(gve) {
+		callee := ci.Common().StaticCallee()
+		if callee == nil || callee.Pkg == nil || callee.Pkg.Pkg.Path() != "reflect" {
+			continue
+		}
+		switch callee.Name() {
+		case "Zero", "New", "ValueOf", "NewAt", "MakeSlice", "MakeMap", "Indirect":
+			if callee.Name() == "Indirect" {
+				continue // Indirect(v) is v.Elem() for a pointer
+			}
+			made = "reflect." + callee.Name() + " at " + p.InstrPos(ci.(ssa.Instruction))
+		}
+	}
+	c.Check(made == "", "GetValueElem / returns only what it was given, unwrapped", p.Pos(gve.Pos()), "no value is manufactured inside (reflect.Zero, New, ValueOf, ...)", "GetValueElem makes a value of its own ("+made+"): a nil pointer or an empty interface operand becomes an ordinary zero value, every operator then computes with it, and the evaluation that should fail and be reported succeeds")
 }
 
 func nodeString(n ast.Node) string {
